@@ -40,7 +40,8 @@ def run(check, patch, tier, seed="1"):
             return "patch-failed", p.stdout[-300:] + p.stderr[-300:]
         env = dict(os.environ, VERIF_SRC=os.path.join(scratch, "src"),
                    VERIF_SEED=str(seed),
-                   VERIF_EVIDENCE_DIR=os.path.join(scratch, "evidence"))
+                   VERIF_EVIDENCE_DIR=os.path.join(scratch, "evidence"),
+                   VERIF_REPLAY_DIR=os.path.join(scratch, "replays"))
         p = subprocess.run([os.path.join(ROOT, "bin", "check"), check,
                             "--tier", tier], env=env, capture_output=True,
                            text=True, timeout=3600)
